@@ -24,7 +24,7 @@ pub fn property() -> Property {
         parts: vec![Box::new(GenPart {
             name: "sender-sessions",
             rule: "see property rule",
-            cases: (480_000, 4_000_000),
+            cases: (480_000, 12_000_000),
             fuzz_decode: Some(crate::fuzzdec::send_case),
             strategy,
             check,
